@@ -1,5 +1,4 @@
--- imports JsonNumberValue_proof.lean (Probe.JEqNumVal)
-import Probe.JEqNumVal
+import JsonNumberValue_proof
 import Mathlib.Data.Nat.Digits.Defs
 /-! Proof probe for C18, number half: on number spellings `-? int (. frac)? ([eE] [+-]? digits)?` without leading
     zeros, the whole ladder of `equalNumber` after D2 (both zero / same bytes / both integers / exact comparison)
